@@ -8,8 +8,8 @@ package exec
 import (
 	"encoding/hex"
 	"fmt"
-	"strconv"
 	"go/types"
+	"strconv"
 	"strings"
 
 	"golang.org/x/tools/go/ssa"
